@@ -21,9 +21,19 @@ tvars == <<absVars, l, run>>
 TraceInit == AbsInit /\ l = 1 /\ run = 0
 
 S(e) == [A |-> e.secA, B |-> e.secB]
-\* the alteration as the judge sees it: "none" = byte-identical; a token that differs from the genuine one in
-\* dh1 only (whatever the attacker did to it) is the class "b:dh1" of the model
-Alt(e) == IF e.alt = "none" THEN "none" ELSE IF e.diff = "dh1" THEN "b:dh1" ELSE e.alt
+\* FACTS about the delivered token relative to the message it derives from (logged by the driver from a
+\* property-by-property comparison): chg = properties whose value differs or that were added ("class" = class id),
+\* rm = properties that were removed.  The judge classifies from these facts, never from the driver's label:
+\*   nothing changed, nothing (or only sender-optional properties) removed  -> "none" (+ strip)
+\*   dh1 changed only (whatever the attacker did to it)                      -> class "b:dh1" of the model
+\*   nothing changed but a property the standard requires removed            -> "rm"
+SetOf(q) == {q[i] : i \in 1..Len(q)}
+Chg(e) == SetOf(e.chg)
+Strip(e) == SetOf(e.rm)
+OptOnly(e) == Strip(e) \subseteq OptProps(e.k)
+Alt(e) == IF Chg(e) = {} THEN (IF OptOnly(e) THEN "none" ELSE "rm")
+          ELSE IF Chg(e) = {"dh1"} /\ OptOnly(e) THEN "b:dh1"
+          ELSE IF e.alt = "none" THEN "altered" ELSE e.alt
 
 Reset(e) ==
   /\ ds' = [p \in Parties |-> IF p = "A" THEN "ReqSend" ELSE "ReqMsg"]
@@ -49,7 +59,7 @@ Step ==
   /\ LET e == Rec[l] IN
      CASE e.ev = "Reset" -> Reset(e)
        [] e.ev = "Req"   -> AbsReq(K, e.out, e.emit, S(e)) /\ UNCHANGED run
-       [] e.ev = "Dlv"   -> AbsDlv(K, e.to, e.mid, Alt(e), e.call, e.out, e.emit, S(e)) /\ UNCHANGED run
+       [] e.ev = "Dlv"   -> AbsDlv(K, e.to, e.mid, Alt(e), Strip(e), e.call, e.out, e.emit, S(e)) /\ UNCHANGED run
        [] e.ev = "End"   -> End(e)
   /\ (viol' # viol /\ viol' # {}) =>
         PrintT("VIOL line=" \o ToString(l) \o " run=" \o ToString(run') \o " clauses=" \o ToString(viol' \ viol))
